@@ -22,6 +22,7 @@ generated moves the accepted ones are `Equal` to; the model side answers with th
 (`Spec.legalMoves`, proved a permutation of `allMoves.filter legal` in `C03.legalMoves_perm`). -/
 def handleC03 : Handler := fun st op args =>
   match op, args with
+  | "acceptsq", [ptok] => some (st, withPos ptok fun p => fmtMoves (Spec.legalMoves (Spec.abs p)))
   | "accepts", [ptok] => some (st, withPos ptok fun p => fmtMoves (Spec.legalMoves (Spec.abs p)))
   | "gencheck", [ptok] => some (st, withPos ptok fun p => genCheck p)
   | _, _ => none
